@@ -55,3 +55,8 @@ func (c *Conn) VerifSeqState() VerifSeqState {
 	}
 	return s
 }
+
+// VerifSeqHandles returns the handles of the two buffers a Conn retains between Parse calls: the
+// unparsed input cache and the message under assembly (nil when there is none). Read-only use by
+// the C11 content oracle (the caller knows the Conn is quiescent).
+func (c *Conn) VerifSeqHandles() (cached, message *[]byte) { return c.bytesCached, c.message }
